@@ -28,5 +28,4 @@ def run(ctx):
     n = 4000 if ctx.quick else 80000
     chanlib.liveness_tie(ctx, "conc-liveness", [h, "gen", "--seed", str(ctx.seed), "--cases", str(n), "--mode", "conc",
                                                 "--tier", ctx.tier], drv)
-    if os.environ.get("VERIF_CHAN_LAYERB", "1") == "1":
-        chanlib.layer_b(ctx, LAYER_B)
+    chanlib.layer_b(ctx, LAYER_B)
